@@ -319,7 +319,7 @@ fn pump_and_validate(w: &mut World) -> Vec<Issue> {
 /// Catch up completely, then the same oracle.
 fn settle_and_validate(w: &mut World) -> Vec<Issue> {
     // tasks that failed on the injected fault come back after 5 minutes
-    let (runs, _) = w.quiesce_within(400, 300);
+    let (runs, _) = w.quiesce_within(400, 1500);
     for run in &runs {
         if let Some(f) = run.fatal() {
             return vec![("daemon-would-exit-during-recovery".into(),
@@ -385,12 +385,12 @@ fn recover_and_compare(
     vec![]
 }
 
-/// Whether an issue says "configuration and published objects disagree".
-fn is_exactness_issue(sig: &str) -> bool {
-    let s = sig.trim_start_matches("after-recovery:")
-        .trim_start_matches("after-resubmission:");
-    ["vrp-", "aspa-", "router-key-", "api-object-"].iter()
-        .any(|p| s.starts_with(p))
+/// Whether an issue is a symptom of stores disagreeing with each other
+/// (as opposed to: something does not load, an acknowledged command is
+/// lost, a panic).
+fn is_consistency_issue(sig: &str) -> bool {
+    sig.starts_with("after-recovery:") || sig.starts_with("after-resubmission:")
+        || sig.starts_with("state-diverges")
 }
 
 /// If cut `n` lies between a pre-save listener write (ca_objects, task
@@ -606,7 +606,7 @@ fn run_pair(r: &mut Report, args: &Args, pair: &Pair, rng: &mut Rng) {
             r.count(&format!("cut_checks_{realisation}"), 1);
             if let Some((sig, detail)) = issues.first() {
                 let sig = match listener_window(&muts, n, &ctx.strip) {
-                    Some(ns) if is_exactness_issue(sig) => {
+                    Some(ns) if is_consistency_issue(sig) => {
                         r.count("in_listener_window", 1);
                         format!("listener-state-ahead-of-command-log:{ns}")
                     }
